@@ -38,14 +38,14 @@ def run(chk: Check):
     else:
         trees = G.model_part(chk, tlc)
         n_tlc = len(trees)
-        if not chk.thorough and n_tlc > 220:
-            keep = sorted(chk.rng.sample(range(n_tlc), 220))
+        if not chk.thorough and n_tlc > 300:
+            keep = sorted(chk.rng.sample(range(n_tlc), 300))
             trees = [trees[i] for i in keep]
         n_used = len(trees)
-        for _ in range(chk.pick(160, 4000)):
+        for _ in range(chk.pick(300, 4000)):
             trees.append(G.gen(chk.rng, 4))
         # text leaves on their own: the exactness clauses
-        for _ in range(chk.pick(300, 6000)):
+        for _ in range(chk.pick(600, 6000)):
             trees.append(G.mk_txt(chk.rng, False, chk.rng.choice([4, 8, 12, 20])))
         chk.notes["trees"] = dict(tlc_generated=n_tlc, tlc_used=n_used, random=len(trees) - n_used)
     prod = G.produce("C09", trees, subs=True, seed=chk.seed)
